@@ -16,6 +16,10 @@ from mc.choice import compositions
 from mc.net import MemTransport
 from mc.runner import Stats
 
+# the server reports a failing eomReceived through log.err; without an observer that is printed to stderr
+from twisted.logger import globalLogBeginner
+globalLogBeginner.beginLoggingTo([lambda event: None], redirectStandardIO=False, discardBuffer=True)
+
 ID = "C40"
 LEVEL = "exploration"
 TECHNIQUE = "exhaustive bodies x read chunkings x network segmentations, end to end over in-memory transports"
@@ -30,7 +34,9 @@ RULE = ("bodies = every sequence of <= K lines over {'.', '..', '.a', 'a', '', '
         "server is additionally fed the reference dot-stuffed stream in every segmentation so that SMTP.dataLineReceived "
         "stays covered for dot-leading lines. Additionally: every ordered pair of bodies of <= 2 lines (thorough: also triples of "
         "<= 1-line bodies, ESMTP too) sent as consecutive messages over ONE connection (second client transaction after RSET), "
-        "whole and byte-at-a-time, each message judged by the same oracle (state carried from one message to the next)")
+        "whole and byte-at-a-time, each message judged by the same oracle (state carried from one message to the next); and the same "
+        "with a FIRST message that its recording IMessage refuses (SMTPServerError from the Received-header / first / second lineReceived "
+        "call, or a failing eomReceived) followed by a normal message that must arrive intact")
 BOUNDS = {"quick": "K=3 (585 bodies), SMTP server; ESMTP server for K<=2; 5329 two-message connections",
           "thorough": "K=4 over the first 6 lines + K=3 over 8 (1881 bodies), all read chunkings for bodies <= 10 bytes, ESMTP server too for K<=3, "
                       "<= 2 network cuts for DATA streams <= 16 bytes (1 cut beyond); 5329 two-message and 6561 three-message connections on both servers"}
@@ -147,16 +153,24 @@ class Client(smtp.SMTPClient):
 class Msg:
     def __init__(self, rec):
         self.rec = rec
+        self.fault = rec.faults[len(rec.msgs)] if len(rec.msgs) < len(rec.faults) else None
         rec.msgs.append(self)
         self.lines = []
         self.eoms = []
         self.lost = 0
+        self.calls = 0
 
     def lineReceived(self, line):
+        n = self.calls          # 0 = the Received header handed over in do_DATA, 1 = first line of the DATA phase, ...
+        self.calls += 1
+        if self.fault == ("refuse", n):
+            raise smtp.SMTPServerError(552, b"refused by the message object")
         self.lines.append(bytes(line))
 
     def eomReceived(self):
         self.eoms.append((self.rec.delivered, list(self.lines)))
+        if self.fault == ("eomfail",):
+            return defer.fail(smtp.SMTPServerError(451, b"delivery failed"))
         return defer.succeed(None)
 
     def connectionLost(self):
@@ -179,7 +193,8 @@ class Delivery:
 
 
 class Rec:
-    def __init__(self):
+    def __init__(self, faults=()):
+        self.faults = [tuple(f) if f else None for f in faults]   # per message index: None | ("refuse", n) | ("eomfail",)
         self.msgs = []
         self.cmdlines = []
         self.mode_unknown = False
@@ -204,10 +219,10 @@ def _server_class(base):
 SERVERS = {"SMTP": _server_class(smtp.SMTP), "ESMTP": _server_class(smtp.ESMTP)}
 
 
-def session(server_kind, body, chunks, seg, bytewise_all=False, override=None, more=()):
+def session(server_kind, body, chunks, seg, bytewise_all=False, override=None, more=(), faults=()):
     """Run one complete client/server conversation.  seg = tuple of segment lengths for the DATA-phase stream
     (None = whole).  Returns a dict of observations."""
-    rec = Rec()
+    rec = Rec(faults)
     server = SERVERS[server_kind]()
     server.rec = rec
     server.delivery = Delivery(rec)
@@ -330,27 +345,39 @@ def judge(lines, body, chunks, obs):
     return bad + judge_message(lines, stream, obs["msgs"][0])
 
 
-def evaluate_multi(server_kind, lines_list, bytewise_all):
+def evaluate_multi(server_kind, lines_list, bytewise_all, faults=()):
     """Several messages over ONE connection (second SMTPClient transaction after RSET); whole reads.  The same
-    transparency oracle is applied to every message.  -> [(sig, detail)]"""
+    transparency oracle is applied to every message that the recording IMessage does not itself refuse
+    (faults[i]: message i's IMessage raises SMTPServerError from its n-th lineReceived call, or fails eomReceived;
+    such a message is not judged, the messages after it must still arrive intact).  -> [(sig, detail)]"""
+    faults = [tuple(f) if f else None for f in faults] + [None] * (len(lines_list) - len(faults))
     bodies = [b"".join(ln + b"\n" for ln in lines) for lines in lines_list]
-    obs = session(server_kind, bodies[0], (len(bodies[0]),) if bodies[0] else (), None, bytewise_all, None, bodies[1:])
+    obs = session(server_kind, bodies[0], (len(bodies[0]),) if bodies[0] else (), None, bytewise_all, None, bodies[1:], faults)
     if obs["loop"]:
         return [("harness:pump-did-not-quiesce", "%r" % (lines_list,))]
     out = []
-    ctx = "%s server; %d messages on one connection, bodies %r, delivered %s" % (
-        server_kind, len(bodies), bodies, "byte-at-a-time" if bytewise_all else "whole")
+    ctx = "%s server; %d messages on one connection, bodies %r%s, delivered %s" % (
+        server_kind, len(bodies), bodies, (", IMessage faults %r" % (faults,)) if any(faults) else "",
+        "byte-at-a-time" if bytewise_all else "whole")
     for k, d in judge_commands(obs):
         out.append(("SMTP.dataLineReceived:%s" % k, ctx + ": " + d))
-    if len(obs["phases"]) != len(bodies) or len(obs["msgs"]) != len(bodies):
+    # a message whose IMessage refuses the Received header is turned down at DATA: no DATA phase for it
+    with_phase = [i for i, f in enumerate(faults) if f != ("refuse", 0)]
+    if len(obs["phases"]) != len(with_phase) or len(obs["msgs"]) != len(bodies):
         out.append(("SMTP:later-message-on-same-connection:not-transferred",
                     ctx + ": %d DATA phases, %d server messages" % (len(obs["phases"]), len(obs["msgs"]))))
         return out
-    for idx, (lines, ph, msg) in enumerate(zip(lines_list, obs["phases"], obs["msgs"])):
+    phase_of = dict(zip(with_phase, obs["phases"]))
+    refused_before = False
+    for idx, (lines, msg) in enumerate(zip(lines_list, obs["msgs"])):
+        if faults[idx] is not None:
+            refused_before = True
+            continue                      # the application refused this one itself: nothing to demand
+        ph = phase_of[idx]
         bad = judge_message(lines, ph["stream"], msg)
         if not bad:
             continue
-        later = ":later-message-on-same-connection" if idx else ""
+        later = (":later-message-after-a-refused-one" if refused_before else ":later-message-on-same-connection") if idx else ""
         if ph["client_stream"] != ref_stream(lines):
             out.append(("SMTPClient:data-stream-wrong" + later, ctx + ": message %d stream %r, reference %r; %s" % (
                 idx + 1, ph["client_stream"], ref_stream(lines), "; ".join("%s: %s" % b for b in bad))))
@@ -489,10 +516,37 @@ def shards(tier, seed):
     firsts = _small_bodies(2)
     m = 8 if tier == "quick" else 16
     out += [{"multi_first": firsts[i::m]} for i in range(m)]
+    out += [{"multi_first": firsts[i::m], "faulty_first": True} for i in range(m)]
     return out
 
 
+FAULTS = [("refuse", 0), ("refuse", 1), ("refuse", 2), ("eomfail",)]
+
+
+def run_multi_faulty(shard, tier, st):
+    """first message refused by its IMessage (header / first / second DATA line / at end of message), then a normal one"""
+    kinds = ["SMTP"] if tier == "quick" else ["SMTP", "ESMTP"]
+    for first in shard["multi_first"]:
+        seconds = _small_bodies(2) if len(first) <= 1 else _small_bodies(1)
+        for second in seconds:
+            lines_list = [[LINES[i] for i in first], [LINES[i] for i in second]]
+            for fault in FAULTS:
+                for server_kind in kinds:
+                    for bw in (False, True):
+                        st.evaluations += 1
+                        bad = evaluate_multi(server_kind, lines_list, bw, [fault])
+                        st.nt(("faulty", server_kind, first, second, fault, bw))
+                        st.outcome("multi:first-%s:%s" % ("-".join(map(str, fault)), "ok" if not bad else "violating"))
+                        for sig, detail in bad:
+                            st.outcome(sig)
+                            st.violation(sig, detail, {"multi": [list(l) for l in lines_list], "server": server_kind,
+                                                       "bytewise": bw, "faults": [list(fault)]})
+    return st
+
+
 def run_multi(shard, tier, st):
+    if shard.get("faulty_first"):
+        return run_multi_faulty(shard, tier, st)
     seconds = _small_bodies(2)
     singles = _small_bodies(1)
     kinds = ["SMTP"] if tier == "quick" else ["SMTP", "ESMTP"]
@@ -584,7 +638,8 @@ def run_shard(shard, tier, seed):
 
 def replay(w):
     if w.get("multi") is not None:
-        return evaluate_multi(w["server"], [[bytes(x) for x in l] for l in w["multi"]], bool(w.get("bytewise")))
+        return evaluate_multi(w["server"], [[bytes(x) for x in l] for l in w["multi"]], bool(w.get("bytewise")),
+                              [tuple(f) for f in (w.get("faults") or [])])
     lines = [bytes(x) if not isinstance(x, bytes) else x for x in w["lines"]]
     seg = tuple(w["seg"]) if w.get("seg") else None
     bad, _ = evaluate(w["server"], lines, tuple(w["chunks"]), seg, bool(w.get("bytewise")), w.get("whole_ok"),
